@@ -686,5 +686,36 @@ def js_relabel(prog: Program) -> RuleResult:
     return r
 
 
+def js_raisable(prog: Program) -> RuleResult:
+    """The error that leaves from_json has to *arrive* as that error.  On its way out the interpreter and the standard library write to the
+    exception object: `raise ... from` and the traceback are set from C, but a generator-based context manager the error passes through
+    (`with engine.begin():`, any @contextmanager) assigns `exc.__traceback__` from Python - as does `with_traceback`, `add_note`, and frameworks
+    that annotate errors.  An exception class that rejects attribute assignment (a frozen dataclass, __slots__ without __dict__, a
+    __setattr__ of its own) turns the documented error into FrozenInstanceError / AttributeError at that point."""
+    r = RuleResult("JS-RAISABLE", "the documented errors accept the attribute writes raising and propagating perform", floor=3)
+    base = prog.cls("json_serializer.JSONSerializationError")
+    n = 0
+    for c in sorted(prog.subclasses(base.qual, strict=False), key=lambda x: x.qual):
+        n += 1
+        why = None
+        for q in c.mro:
+            k = prog.classes.get(q)
+            if k is None or not prog.is_subclass(k.qual, base.qual):
+                continue
+            if k.decorator_kw("dataclass", "frozen") is True:
+                why = f"{k.name} is a frozen dataclass"
+            if k.decorator_kw("dataclass", "slots") is True or "__slots__" in k.attrs:
+                why = why or f"{k.name} declares __slots__"
+            for m in ("__setattr__", "__delattr__"):
+                if m in k.methods:
+                    why = why or f"{k.name} defines {m}"
+        r.check(why is None, f"{c.name}#attributes-can-be-set", c.loc, " ".join("@" + d for d in c.decorators)[:80], "instances accept attribute assignment",
+                f"{why}: the first Python-level write to the exception on its way out (contextlib's `exc.__traceback__ = traceback` when the error passes through `with engine.begin():` "
+                f"or any @contextmanager block) raises FrozenInstanceError / AttributeError in place of the documented error")
+    if n < 3:
+        raise AnalysisError("JS-RAISABLE: fewer than three error classes below JSONSerializationError")
+    return r
+
+
 def run(prog: Program, tier: str) -> List[RuleResult]:
-    return [guard(lambda: js_escape(prog)), guard(lambda: js_registry(prog)), guard(lambda: js_relabel(prog))]
+    return [guard(lambda: js_escape(prog)), guard(lambda: js_registry(prog)), guard(lambda: js_relabel(prog)), guard(lambda: js_raisable(prog))]
